@@ -976,6 +976,17 @@ func EnumPaths(fn *ssa.Function, o EnumOpts) ([]Path, error) {
 				n0 := len(lits)
 				lits = append(lits, *l)
 				lits = append(lits, ExpandLit(*l)...)
+				if alts := errHelperAlts(*l); len(alts) > 0 && len(alts) <= 8 {
+					// a test of an extracted helper's error: one continuation per way the helper has of
+					// producing that outcome, with the facts of that way
+					n1 := len(lits)
+					for _, alt := range alts {
+						lits = append(lits[:n1], alt...)
+						walk(s, 0, false, e.enter(b, s))
+					}
+					lits = lits[:n0]
+					continue
+				}
 				walk(s, 0, false, e.enter(b, s))
 				lits = lits[:n0]
 			} else {
@@ -1314,6 +1325,9 @@ func transLit(s Lit, args []ssa.Value, trans func(ssa.Value) ssa.Value) Lit {
 // path of the helper that produces the branched-on outcome. A guard is
 // established by the edge when every alternative contains a literal satisfying it.
 func ExpandLitDNF(l Lit) [][]Lit {
+	if alts := errHelperAlts(l); len(alts) > 0 {
+		return alts
+	}
 	c, ok := l.Cond.(*ssa.Call)
 	if !ok || c.Common().IsInvoke() {
 		return nil
@@ -1349,6 +1363,123 @@ func ExpandLitDNF(l Lit) [][]Lit {
 	}
 	var out [][]Lit
 	for _, alt := range alts[cl] {
+		var o []Lit
+		for _, s := range alt {
+			o = append(o, transLit(s, args, trans))
+		}
+		out = append(out, o)
+	}
+	return out
+}
+
+// ---- error-helper summaries ----
+
+var errAlts = map[*ssa.Function]*[2][][]Lit{}
+var errBusy = map[*ssa.Function]bool{}
+
+// errHelperAlts: l is a nil test of the error a module function g returned, where g is a helper that does not
+// exist in the reference inventory (an extracted block). The result lists, per path of g that produces the tested
+// outcome (nil / non-nil error), the literals of that path in the caller's frame — the test of the helper's
+// error is thereby still seen as the disjunction of conjunctions it stands for. nil when not applicable.
+func errHelperAlts(l Lit) [][]Lit {
+	v, isNil, ok := l.NilTest()
+	if !ok || v == nil {
+		return nil
+	}
+	var call *ssa.Call
+	switch x := v.(type) {
+	case *ssa.Call:
+		call = x
+	case *ssa.Extract:
+		c, isC := x.Tuple.(*ssa.Call)
+		if !isC {
+			return nil
+		}
+		call = c
+	default:
+		return nil
+	}
+	if !isErrorType(v.Type()) || call.Common().IsInvoke() {
+		return nil
+	}
+	g := StaticFn(call.Common())
+	if g == nil || !isModuleFunc(g) || len(g.Blocks) == 0 || g.Parent() != nil || !NewFuncs[FuncKey(g)] {
+		return nil
+	}
+	ei := ErrorResultIndex(g)
+	if ei < 0 {
+		return nil
+	}
+	sum, done := errAlts[g]
+	if !done {
+		if errBusy[g] {
+			return nil
+		}
+		errBusy[g] = true
+		paths, err := EnumPaths(g, EnumOpts{Max: 64})
+		delete(errBusy, g)
+		if err != nil {
+			errAlts[g] = nil
+			return nil
+		}
+		var a [2][][]Lit
+		for _, pa := range paths {
+			rt, isR := pa.End.(*ssa.Return)
+			if !isR || ei >= len(pa.Ret) {
+				errAlts[g] = nil // a path that does not return (panic, loop back edge): no summary
+				return nil
+			}
+			_ = rt
+			cl := 1 // non-nil
+			if c, isC := pa.Ret[ei].(*ssa.Const); isC && c.IsNil() {
+				cl = 0
+			} else if !isFreshError(pa.Ret[ei], 0) {
+				// an error handed up from a callee: nil or not is that callee's business — the path belongs to both
+				// classes, unless the path itself tested that very value
+				known := 0
+				for _, pl := range pa.Lits {
+					if x, isN, isT := pl.NilTest(); isT && x != nil && SameValue(x, pa.Ret[ei]) {
+						known = 1
+						if isN {
+							known = -1
+						}
+					}
+				}
+				switch known {
+				case 0:
+					a[0] = append(a[0], append([]Lit(nil), pa.Lits...))
+				case -1:
+					cl = 0
+				}
+			}
+			a[cl] = append(a[cl], append([]Lit(nil), pa.Lits...))
+		}
+		errAlts[g] = &a
+		sum = &a
+	}
+	if sum == nil {
+		return nil
+	}
+	cl := 1
+	if isNil { // the edge asserts 'error is nil'
+		cl = 0
+	}
+	args := call.Common().Args
+	trans := func(v ssa.Value) ssa.Value {
+		switch x := v.(type) {
+		case *ssa.Const:
+			return x
+		case *ssa.Parameter:
+			for i, q := range g.Params {
+				if q == x && i < len(args) {
+					return args[i]
+				}
+			}
+		}
+		return nil
+	}
+	var out [][]Lit
+	for _, alt := range sum[cl] {
 		var o []Lit
 		for _, s := range alt {
 			o = append(o, transLit(s, args, trans))
